@@ -541,6 +541,12 @@ class Model:
             if c.state == "S":
                 self.m_delete(c)
                 return "orphan_deleted"
+            if c.state == "T":
+                # de-associated outside of a session: an orphan by the same rule; the program drops it
+                # (if it were add()ed alone it would be inserted and then deleted on its next change)
+                c.dead = True
+                self.propagate_dead()
+                return "orphan_dropped"
         return None
 
     def m_delete(self, o):
@@ -629,13 +635,14 @@ class Model:
         o = self.by_uid(root, uid)
         return o is not None and o.state in "PS" and not o.dead
 
-    def m_reload(self, o):
+    def m_reload(self, o, really_expired=True):
         """in-memory view of a persistent object := what its row says (expire + later load)"""
         U = self.U
         row = self.rows.get((U.root(o.kind), o.uid))
-        for g in self.objs:
-            if g.ghost_of is o:
-                g.ghost_of = None
+        if really_expired:  # (a savepoint rollback leaves unmodified collections, and their ghosts, loaded)
+            for g in self.objs:
+                if g.ghost_of is o:
+                    g.ghost_of = None
         if row is None:
             return
         o.vals["val"] = row["val"]
@@ -684,12 +691,17 @@ class Model:
                     o.state = "G"
                 else:  # S, or X re-attached in scope: persistent again
                     o.state = "S"
-            # T and X objects are not touched by a rollback
+            elif o.state == "X" and was in "TP":
+                # inserted in the rolled-back scope, then expunged by the program: the rollback still
+                # sends it back to transient
+                o.state = "T"
+                o.dead = True
+            # other T and X objects are not touched by a rollback
         for o in self.objs:
             if o.state == "S" and not o.dead:
-                self.m_reload(o)
+                self.m_reload(o, really_expired=(depth == 0))
         self.propagate_dead()
-        del self.stack[depth + 1 :]
+        del self.stack[max(depth, 1) :]  # the rolled-back savepoint is gone as well
         if depth == 0:
             del self.stack[:]
             self.push()
@@ -763,6 +775,8 @@ class Interp:
         self.counters = {"flush_checks": 0, "tx_checks": 0, "ops": 0, "skipped": 0}
         self.warnings = []
         self.trace = []
+        self.scope_loaded = []  # per open savepoint: {idx: attribute keys loaded when it began}
+        self.scope_children = []  # per open savepoint: children whose collection membership changed (one-directional o2m)
         self.scope_kinds = []  # per open savepoint: generic kinds of operations done inside it
         self.rich_rollback = False  # a savepoint at depth>=2 holding add+delete+modify was rolled back
         self.triggers = []  # known-finding triggers deliberately executed (pinned replays only)
@@ -840,6 +854,9 @@ class Interp:
         gen = "add" if kind == "add" else "delete" if kind == "delete" else "modify"
         for sc in self.scope_kinds:
             sc.add(gen)
+        if kind in ("append", "reparent", "remove", "clear", "replace", "clearparent") and self.U.has_o2m and not self.U.is_bidir:
+            for sc in self.scope_children:
+                sc.update(o.idx for o in objs if o is not None and self.U.childish(o.kind))
         for o in objs:
             if o is not None:
                 self.flush_mappers.add(self.U.root(o.kind))
@@ -1269,6 +1286,11 @@ class Interp:
             # with autoflush off, an unloaded collection would later be loaded by the *new* key value
             # (and come back empty); an application in that mode loads it before switching the key
             self.do(lambda: p.real.children)
+        if p.state == "S" and m.stack[0]["states"].get(p.idx, "T") in "TP":
+            if not self.pinned:
+                self.ctx.exclude("key switch of a row inserted in the same transaction: a rollback leaves the object detached, not transient (known finding)")
+                return False
+            self.triggers.append("state/inserted-and-key-switched-object-detached-after-rollback")
         m.name_ctr += 1
         name = f"k{m.name_ctr}"
         self.do(lambda: setattr(p.real, "name", name))
@@ -1388,6 +1410,14 @@ class Interp:
             self._flush_if_dirty()
             if not (o.state == "S" and self._isolated(o)):
                 return False
+            # a detached copy is not touched by a later rollback: only rows that the open transaction(s)
+            # did not change are detached, so that the copy stays accurate whatever happens next
+            key = (self.U.root(o.kind), o.uid)
+            for snap in self.model.stack:
+                if snap["rows"].get(key) != self.model.rows.get(key) or any(o.uid in pr for pr in snap["pairs"]):
+                    return False
+                if any(r.get("parent") == o.uid or r.get("fav") == o.uid for r in snap["rows"].values()):
+                    return False
         if o.idx in self.model.keyswitched:
             if not self.pinned:
                 self.ctx.exclude("expunge of an object whose key switch was flushed in the open transaction: a rollback puts it back into the identity map (known finding)")
@@ -1561,6 +1591,8 @@ class Interp:
         self.guard(self.session.commit)
         del self.nested[:]
         del self.scope_kinds[:]
+        del self.scope_children[:]
+        del self.scope_loaded[:]
         if self.rich_rollback:
             self.classes.add("commit-after-rich-rollback")
         self.model.m_commit()
@@ -1571,9 +1603,15 @@ class Interp:
 
     def op_rollback(self, a, b, c):
         depth = len(self.nested)
+        if not self.session.in_transaction():
+            self.session.rollback()  # nothing to roll back, nothing expires
+            self.classes.add("rollback-without-transaction")
+            return True
         self.session.rollback()
         del self.nested[:]
         del self.scope_kinds[:]
+        del self.scope_children[:]
+        del self.scope_loaded[:]
         self.rich_rollback = False
         self.model.m_rollback_to(0)
         self.flush_kinds = set()
@@ -1593,6 +1631,8 @@ class Interp:
         self._note_flush()
         self.model.push()
         self.scope_kinds.append(set())
+        self.scope_children.append(set())
+        self.scope_loaded.append({o.idx: dict(o.real.__dict__) for o in self.model.objs if o.state == "S" and not o.dead})
         self.pending_check = False
         self.check_flush_point("begin_nested")
         self.classes.add(f"savepoint-depth-{len(self.nested)}")
@@ -1603,6 +1643,8 @@ class Interp:
         self.pre_flush()
         self.guard(self.nested.pop().commit)
         self.scope_kinds.pop()
+        self.scope_children.pop()
+        self.scope_loaded.pop()
         self.model.m_release()
         self._note_flush()
         self.pending_check = False
@@ -1628,10 +1670,33 @@ class Interp:
         tx.rollback()
         del self.nested[k:]
         del self.scope_kinds[k:]
+        poisoned = set().union(*self.scope_children[k:])
+        del self.scope_children[k:]
+        loaded_at_start = self.scope_loaded[k]
+        del self.scope_loaded[k:]
         if depth_before >= 2 and {"add", "delete", "modify"} <= rolled:
             self.rich_rollback = True
             self.classes.add("rich-savepoint-rollback")
         self.model.m_rollback_to(k + 1)
+        # documented: a savepoint rollback expires only state that was *modified* since the savepoint; attributes
+        # that were merely loaded inside it (possibly showing rows flushed inside it) are expired by the program
+        for idx, keys in sorted(loaded_at_start.items()):
+            o = self.model.objs[idx]
+            if o.state == "S" and not o.dead:
+                fresh = sorted(k for k, v in o.real.__dict__.items() if k != "_sa_instance_state" and (k not in keys or keys[k] is not v))
+                if fresh:
+                    self.session.expire(o.real, fresh)
+                    self.ctx.info("attributes first loaded inside a rolled-back savepoint, expired by the program", len(fresh))
+        for idx in sorted(poisoned):
+            o = self.model.objs[idx]
+            if o.state == "S" and not o.dead:
+                if self.pinned:
+                    self.triggers.append("savepoint-rollback/hasparent-flags-not-restored-unidirectional-one-to-many")
+                else:
+                    # known finding: a savepoint rollback does not restore the child's has-parent bookkeeping when
+                    # the child itself was not modified (one-directional one-to-many); expiring the child resets it
+                    self.ctx.exclude("savepoint rollback after a collection change of a one-directional one-to-many (known finding); child expired by the program")
+                    self.session.expire(o.real)
         self.flush_kinds = set()
         self.flush_mappers = set()
         self.orphan_of = {}
@@ -1641,9 +1706,18 @@ class Interp:
 
     def op_close(self, a, b, c):
         m = self.model
+        for o in m.objs:
+            if o.state in "PDG" or o.dead:
+                o.flag_override = "skip"  # close() expunges rather than restores: only membership is judged
+            if o.state == "T" and not o.dead and any(n.state in "PSDG" for n in m.neighbors(o)):
+                o.dead = True  # holds references to instances that are about to be replaced by re-loaded ones
+                o.flag_override = "skip"
+        m.propagate_dead()
         self.session.close()
         del self.nested[:]
         del self.scope_kinds[:]
+        del self.scope_children[:]
+        del self.scope_loaded[:]
         self.rich_rollback = False
         m.m_rollback_to(0)
         for o in m.objs:
@@ -1657,6 +1731,9 @@ class Interp:
                 else:
                     o.dead = True
                     o.state = "X"
+                    o.flag_override = "skip"
+            elif o.dead:
+                o.flag_override = "skip"
         self.flush_kinds = set()
         self.flush_mappers = set()
         self.classes.add("close")
@@ -1749,9 +1826,15 @@ class Interp:
             st_ = inspect(r)
             flags = "".join(ch for ch, f in (("T", st_.transient), ("P", st_.pending), ("S", st_.persistent), ("G", st_.deleted), ("X", st_.detached)) if f)
             exp = {"T": "T", "P": "P", "S": "S", "D": "S", "X": "X"}.get(o.state)
-            if o.state == "G":
+            if o.flag_override == "skip":
+                flags = exp = None
+            elif o.flag_override is not None:
+                exp = o.flag_override
+            elif o.state == "G":
                 # deleted inside a still-open transaction: 'deleted'; after the outer commit: 'detached'
                 exp = "X" if (outer and where == "commit") else "G"
+                if outer and where == "commit":
+                    o.flag_override = "X" if self.U.cfg["eoc"] else "skip"  # from now on: deleted and committed
                 if outer and where == "commit" and not self.U.cfg["eoc"] and flags == "G":
                     if not self.pinned:
                         self.ctx.exclude("expire_on_commit=False: deleted object stays in 'deleted' state after commit (known finding)")
